@@ -59,7 +59,7 @@ pub fn options(rng: &mut Rng, extreme: bool) -> Vec<String> {
         a.push(format!("--update={}", u));
     }
     if rng.chance(0.3) {
-        a.push(format!("--observer-coord={}", rng.pick(&["52.0,-8.0", " 52.66 , -8.62 ", "0,0", "-89.9,179.9", "nonsense", "1,2,3", "91,181", ""])));
+        a.push(format!("--observer-coord={}", rng.pick(&["52.0,-8.0", " 52.66 , -8.62 ", "0,0", "-89.9,179.9", "nonsense", "1,2,3", "91,181", "", "nan,nan", "NaN,0", "inf,-inf", "0,infinity", "1e400,-1e400", "1e-320,0"])));
     }
     if rng.chance(0.15) { a.push("--downlink-log=/dev/null".into()); }
     if rng.chance(0.2) { a.push(format!("--log-messages={}", rng.pick(&[17u32, 4, 20, 11, 0]))); }
